@@ -43,6 +43,19 @@ CHECKS = {
                 "whole pipeline are outside the claim.",
         "design": "3 C15",
     },
+    "C08": {
+        "text": "Bounded symbolic verification of MultimapResolver (take_best) on n<=3 (quick) / n<=4 (thorough) alignments of one read: "
+                "assignment types are symbolic enum members, secondary flags, penalties, chromosome codes, coordinates and gene regions "
+                "are symbolic, isoform sets chosen by the solver. z3 proves the priority order (primary unique consistent > consistent > "
+                "primary inconsistent > inconsistent by minimum penalty > uninformative by overlap/region start), suspension of every "
+                "loser at both levels, duplicate reduction, ambiguity flags on ties, and - by running the real resolver on ALL n! "
+                "permutations inside one path - that the retained set and final types do not depend on record order; plus the verdict "
+                "application of ReadAssignmentLoader.get_next for arbitrary verdict lists.",
+        "note": "Trusted: z3, symx proxies, symbolic-enum proxy (predicates evaluated through the real enum methods). The count "
+                "contribution bound (<=1) is violated by a recorded known finding (tied loci counted once each) and is only asserted "
+                "outside its input class (>=2 retained records). The on-disk hand-off is covered by C15's framing check only.",
+        "design": "3 C08",
+    },
 }
 
 NOT_BUILT = "check not built yet (build in progress, see DESIGN.md section 5); no claim is made"
